@@ -78,6 +78,12 @@ func (h *Manager) CreateCircuit(name string, configs ...Config) (*Circuit, error
 	if h.circuitMap == nil {
 		h.circuitMap = make(map[string]*Circuit, 5)
 	}
+	// Check for the name before running the configuration constructors: they may have side effects (for example
+	// registering per-circuit stats under this name) that must not happen for a circuit that is never created.
+	_, exists := h.circuitMap[name]
+	if exists {
+		return nil, errors.New("circuit with that name already exists")
+	}
 	finalConfig := Config{}
 	for _, c := range configs {
 		finalConfig.Merge(c)
@@ -85,10 +91,6 @@ func (h *Manager) CreateCircuit(name string, configs ...Config) (*Circuit, error
 	// Merge in reverse order so the most recently appending constructor is more important
 	for i := len(h.DefaultCircuitProperties) - 1; i >= 0; i-- {
 		finalConfig.Merge(h.DefaultCircuitProperties[i](name))
-	}
-	_, exists := h.circuitMap[name]
-	if exists {
-		return nil, errors.New("circuit with that name already exists")
 	}
 	h.circuitMap[name] = NewCircuitFromConfig(name, finalConfig)
 	return h.circuitMap[name], nil
